@@ -37,6 +37,12 @@ CHECKS = {
  "C01": (True, MC, "breadth-first exploration of schema/WSDL productions on the real generator; rustc (edition 2024, six documented crates only) as the oracle on every state",
          "From the XSD and WSDL seeds every single production (member kinds, every builtin, 12 names incl. keywords x 5 naming positions, multi-file import graphs with 3-4 namespaces, operation name styles, one-way operations, 1-3 header parts per direction, explicit parts, imported-namespace elements, 2-3 operations, service name styles, addresses; about 270 states; thorough: all pairs of WSDL productions and the depth-2 member pairs, about 2.6 k states) is printed, run through the real generator, parsed with syn and compiled by rustc as a #[path] module of a package whose manifest lists exactly yaserde, yaserde_derive, xml-rs, log, reqwest, tokio. Any diagnostic of level error inside the emitted file is a violation, attributed to the state.",
          "Trusted: rustc 1.95 and the six crates at the versions of /repo/Cargo.lock. Interactions needing more than two productions, and more than four files, are outside the bound. Compile results are memoised on a hash of the package sources.", "4/C01"),
+ "C03": (True, MC, "breadth-first exploration of member productions x exhaustive value products, executed on the compiled generated code; roxmltree infoset compared with the reference infoset",
+         "Every API-conformant state (seed + one member production, every builtin as optional element / attribute / repeated element, extension chains across namespaces) is compiled together with a generated driver that builds every value of the product of the top-level members' alternatives (Option absent/present, Vec of 0/1/3 items, numeric extremes of the carrier, floats incl. NaN, strings needing escaping, non-ASCII, padded) by complete struct literals and serializes it with yaserde; each document must parse namespace-aware and equal the expected infoset: element QNames of the declaring schema, unqualified attributes, declaration order, omission/repetition, XSD lexical forms.",
+         "The value product is capped per state (24 quick / 64 thorough; the cap count is in the evidence); states that are not API-conformant are masked and counted (C02/C08 report them). The root element of a struct generated for a type is not judged.", "4/C03"),
+ "C04": (True, MC, "same state/value exploration as C03; instance documents printed independently from the reference infoset in three namespace styles and deserialized by the compiled generated code",
+         "For every value of every C03 state three instance documents (fresh prefixes; default namespace + prefixes; default namespace re-declared per element) are printed by the harness from the expected infoset and deserialized into the generated type; the result must equal ({:?}) the value built by literal, its re-serialization must be infoset-equal to the instance, and serialize-deserialize-serialize must be a fixpoint. Instances beyond the carrier type (2^31 for the xs:integer family, long decimals) are added. A discrepancy is excluded only when hand-rule reference structs printed from the reference model fail the identical observation (second compile round; excluded shapes and counts are in the evidence).",
+         "Same caps and masking as C03. One open known finding (integer family in i32 / decimal in f64 lose schema-valid values).", "4/C04"),
 }
 
 NOT_YET = {
